@@ -377,3 +377,95 @@ func WriteHistories(w io.Writer, hs []History, first int) error {
 
 	return nil
 }
+
+// ReplayHistory rebuilds the program of a recorded history (one goroutine per g, calls in order i; the synthetic
+// first half of a WriteFile is dropped) and runs it again: under the recorded schedule when there is one,
+// otherwise free running `runs` times. It returns the distinct histories observed.
+func ReplayHistory(f *Factory, h *History, names []string, runs int) ([]History, error) {
+	ng := 0
+	for _, c := range h.Calls {
+		if c.G > ng {
+			ng = c.G
+		}
+	}
+
+	p := Program{Name: h.Prog, Init: h.Init, Procs: make([][]Call, ng)}
+
+	for g := 1; g <= ng; g++ {
+		var cs []HistCall
+
+		for _, c := range h.Calls {
+			if c.G == g {
+				cs = append(cs, c)
+			}
+		}
+
+		sort.Slice(cs, func(a, b int) bool { return cs[a].I < cs[b].I })
+
+		for k, c := range cs {
+			// the open half of a successful WriteFile (see runOnce) is not a call of the program
+			if c.Call.Op == "openclose" && k+1 < len(cs) && cs[k+1].Call.Op == "writefile" &&
+				cs[k+1].Call.P.Render() == c.Call.P.Render() && strings.Join(c.Call.Flag, "|") == "WRONLY|CREATE|TRUNC" {
+				continue
+			}
+
+			p.Procs[g-1] = append(p.Procs[g-1], c.Call)
+		}
+	}
+
+	var out []History
+
+	seen := map[string]bool{}
+	add := func(x History) {
+		k, _ := json.Marshal([]any{x.Calls, x.Final, x.Inv, x.Deadlock, x.Panic, x.TmpDup})
+		if !seen[string(k)] {
+			seen[string(k)] = true
+			out = append(out, x)
+		}
+	}
+
+	if len(h.Sched) > 0 {
+		x, _, err := runOnce(f, &p, names, func(k int, enabled []int, prev int) int {
+			if k < len(h.Sched) {
+				for _, g := range enabled {
+					if g == h.Sched[k] {
+						return g
+					}
+				}
+			}
+
+			for _, g := range enabled {
+				if g == prev {
+					return g
+				}
+			}
+
+			return enabled[0]
+		})
+		if err != nil {
+			return nil, err
+		}
+
+		add(x)
+
+		return out, nil
+	}
+
+	for i := 0; i < runs; i++ {
+		x, fin, err := runFree(f, &p, names, true)
+		if err != nil {
+			return nil, err
+		}
+
+		if !fin {
+			x.Deadlock = true
+			add(x)
+
+			return out, nil
+		}
+
+		add(x)
+	}
+
+	return out, nil
+}
